@@ -12,5 +12,5 @@ TRUSTED_BASE_COMMON = [
 
 _here = os.path.dirname(os.path.abspath(__file__))
 PROPS = {}
-for _f in sorted(glob.glob(os.path.join(_here, "props", "C*.json"))):
+for _f in sorted(glob.glob(os.path.join(_here, "props", "*.json"))):
     PROPS[os.path.basename(_f)[:-5]] = json.load(open(_f))
